@@ -224,7 +224,7 @@ def install(eng):
         raises={"CancelledError": {"cond": "shutdown or self.task_states[tid] == LocalStatus.CANCELLED",
                                    "ensures": ["implies(proc is not None, g_killed)", "implies(old(g_killed), g_killed)",
                                                "tid in self.task_states"]}},
-        serves=["C13", "C12"])
+        serves=["C13", "C12", "C14"])
     LOGP = "self.working_dir.joinpath('.gwf', 'logs', name + '%s')"
     eng.contract(
         "gwf.backends.local:Scheduler.try_handle_task", shards=4, self_type=Sch, is_async=True,
@@ -258,7 +258,8 @@ def install(eng):
             "all(self.task_states[d] == LocalStatus.COMPLETED for d in sd)",
             "tid in self.task_states", "tid not in done_tasks",
             "not g_held", "not g_proc", "not g_comm", "not g_killed", "proc is None"])},
-        serves=["C11", "C12", "C13", "C07"])
+        # C14 as well: "stays able to accept new tasks" needs every coroutine to give its core back (S118)
+        serves=["C11", "C12", "C13", "C07", "C14"])
     eng.contracts["gwf.backends.local:Scheduler.try_handle_task"].io_may_fail = True
 
     # ================================================================== the other Scheduler methods (C13, C14)
